@@ -2,6 +2,7 @@ import Driver.Proto
 import Driver.OpsSolve
 import LapyVerif.Model.Curvature
 import LapyVerif.Model.Conformal
+import LapyVerif.Model.Mobius
 namespace LapyVerif.Driver
 open LapyVerif
 
@@ -47,6 +48,13 @@ def opMobius : P String := do
   let n ← pNat; let z ← pMany n pC
   return s!"ok {outV3s (z.toList.map fun w => Conformal.invStereo (Conformal.mobius a b c d w))}"
 
+/-- `darea origverts tris a b c d mapping(verts)` → `ok value` : the objective of mobius_area_correction_spherical -/
+def opDArea : P String := do
+  let v ← pVerts; let t ← pTris
+  let a ← pC; let b ← pC; let c ← pC; let d ← pC
+  let mp ← pVerts
+  return s!"ok {floatBits (Conformal.dArea (fun x => x.isFinite) (vtxOf v) t a b c d mp.toList)}"
+
 /-- `beltrami planar(verts) tris mapping(verts)` -/
 def opBeltrami : P String := do
   let p ← pVerts; let t ← pTris; let m ← pVerts
@@ -71,6 +79,6 @@ def opScmGuard : P String := do
   | .error x => return s!"err {x}"
 
 def curvOps : List (String × P String) :=
-  [("curv_post", opCurvPost), ("curv_tria", opCurvTria), ("stereo", opStereo), ("invstereo", opInvStereo), ("mobius", opMobius),
+  [("curv_post", opCurvPost), ("curv_tria", opCurvTria), ("stereo", opStereo), ("invstereo", opInvStereo), ("mobius", opMobius), ("darea", opDArea),
    ("beltrami", opBeltrami), ("lbs", opLbs), ("scm_guard", opScmGuard)]
 end LapyVerif.Driver
